@@ -218,6 +218,9 @@ func c20Describe(p c20Plan, timeout, margin time.Duration) (*common.Fail, string
 		}
 		if firstMatch >= 0 {
 			if at, sent := sentAt[firstMatch]; sent && at.Sub(t0) < timeout-margin {
+				if time.Duration(ctl.over.Load()) > margin/4 {
+					return nil, "scheduler stall during the call (control sleep overshot)"
+				}
 				return common.Failf("match-missed", "a description response was sent %v after the call started (timeout %v, margin %v) but DescribeTunnel returned no result", at.Sub(t0), timeout, margin), ""
 			}
 		}
@@ -368,6 +371,9 @@ func c20Discover(p c20Plan, timeout, margin time.Duration) (*common.Fail, string
 	for i, mt := range matches {
 		// responses sent before Discover had a chance to open its socket and join the group are a don't-care
 		if !used[i] && mt.at < timeout-margin && mt.at > 30*time.Millisecond {
+			if time.Duration(ctl.over.Load()) > margin/4 {
+				return nil, "scheduler stall during the call (control sleep overshot)"
+			}
 			return common.Failf("match-missed", "search response #%d was sent %v after the call started (timeout %v, margin %v) but is not among the %d results", i, mt.at, timeout, margin, len(res)), ""
 		}
 		if used[i] && mt.at > timeout+c20Slack && time.Duration(ctl.over.Load()) <= c20Slack/4 {
